@@ -3,9 +3,10 @@
 Added after seed C17_c_explicit_container_shared_between_cases (see notes/C17.md).  Two stages use the generator below:
 
 * stage_assembly (in c17.py): the Coq model of the CASE ASSEMBLY with object identities (Model_C17 section 7: heap of
-  container dicts, get_parameters_value on an address, serialize_components as an in-place update) is executed against the
-  real `get_strategies_from_examples` + `generate_one` sequence: final container contents of every case, the aliasing
-  structure between the cases and the source combinations, and the source containers after the run.
+  container dicts, get_parameters_value on an address, serialize_components building a new dict from the explicit keys -
+  fix cedd1977) is executed against the real `get_strategies_from_examples` + `generate_one` sequence: final container
+  contents of every case, the aliasing structure between the cases, the generated objects and the source combinations,
+  and the source containers after the run.
 * check_styled_document: the END-TO-END oracle.  The real engine runs the examples phase against the loopback recorder on
   operations whose parameters use each style x explode x type combination that follows the OpenAPI 3.0 table, with more
   body examples than parameter combinations (and the other way round); what the server received is decoded by an
@@ -20,7 +21,8 @@ J = "application/json"
 
 # (location, type, style, explode, idempotent?)  Only combinations where serialization.py follows the OpenAPI 3.0 style table
 # (C06 lists the deviating ones: matrix array/object explode=false lack `name=`, objects with the default explode, ...).
-# idempotent? = applying the in-place serializer a second time changes nothing (decides where finding F7 shows).
+# idempotent? = applying the serializer a second time changes nothing (where the fixed finding F7 - fill-ins serialized
+# twice - and a container serialized once per case show on the wire; used for the non-triviality counters only).
 STYLES = [
     ("path", "prim", "simple", None, True),
     ("path", "array", "simple", None, True),
@@ -178,7 +180,7 @@ def gen_styled_op(rng, tok, i, *, all_examples, shape=None):
     return path, method, op, info
 
 
-def gen_styled_document(rng, n_ops, *, all_examples_ratio=0.7, shape=None):
+def gen_styled_document(rng, n_ops, *, all_examples_ratio=0.6, shape=None):
     tok = Tokens(rng)
     paths, ops = {}, []
     for i in range(n_ops):
@@ -349,7 +351,7 @@ def valid_fill(schema, decoded):
     return True
 
 
-F7 = "fill_in_serialized_twice"
+# F7 "fill_in_serialized_twice" was an excused region until fix cedd1977; a fill-in that arrives invalid is a violation now.
 
 
 def check_styled_document(chk, raw, ops, record=True):
@@ -426,7 +428,7 @@ def check_styled_document(chk, raw, ops, record=True):
                             "required parameter without example: the fill-in that arrives is missing or invalid for its schema",
                             {"op": label, "parameter": {k: p[k] for k in ("name", "loc", "type", "style", "explode")}, "schema": p["fill_schema"],
                              "server_decoded": list(g), "target": r["target"]},
-                            None if p["idempotent"] else F7,
+                            None,
                         ))
                         break
         for b in op["bodies"]:
